@@ -74,6 +74,12 @@ impl Scheduler {
             threads:        Mutex::new(vec![]),
             max_threads:    Mutex::new(initial_max_threads())
         };
+        #[cfg(desync_verif)]
+        {
+            core.schedule.verif_observe("S", |schedule| { let ids: Vec<String> = schedule.iter().map(|q| q.core.verif_name()).collect(); format!("[{}]", ids.join(",")) });
+            core.threads.verif_observe("T", |threads| { let ids: Vec<String> = threads.iter().map(|(busy, _)| busy.verif_name()).collect(); format!("[{}]", ids.join(",")) });
+            core.max_threads.verif_observe("X", |max| format!("{}", max));
+        }
 
         Scheduler {
             core: Arc::new(core)
@@ -134,6 +140,22 @@ impl Scheduler {
     }
 
     ///
+    /// Verification hook: sets the maximum number of threads without the eager scheduling loop of `set_max_threads`
+    ///
+    #[cfg(desync_verif)]
+    pub fn verif_set_max_threads(&self, max_threads: usize) {
+        *self.core.max_threads.lock().expect("Max threads lock") = max_threads;
+    }
+
+    ///
+    /// Verification hook: number of threads currently owned by the scheduler
+    ///
+    #[cfg(desync_verif)]
+    pub fn verif_thread_count(&self) -> usize {
+        self.core.threads.lock().expect("Scheduler threads lock").len()
+    }
+
+    ///
     /// If a queue is idle and has pending jobs, places it in the schedule
     ///
     fn reschedule_queue(&self, queue: &Arc<JobQueue>) {
@@ -145,6 +167,8 @@ impl Scheduler {
     ///
     pub fn spawn_thread(&self) {
         let is_busy     = Arc::new(Mutex::new(false));
+        #[cfg(desync_verif)]
+        is_busy.verif_observe("B", |busy| format!("{}", busy));
         let new_thread  = SchedulerThread::new();
         self.core.threads.lock().expect("Scheduler threads lock").push((is_busy, new_thread));
     }
@@ -154,6 +178,8 @@ impl Scheduler {
     ///
     pub fn create_job_queue(&self) -> Arc<JobQueue> {
         let new_queue = Arc::new(JobQueue::new());
+        #[cfg(desync_verif)]
+        new_queue.core.verif_observe("Q", verif_queue_snapshot);
         new_queue
     }
 
@@ -431,6 +457,8 @@ impl Scheduler {
         // Queue a job that unparks this thread when done
         let wakeup  = Arc::new(Condvar::new());
         let ready   = Arc::new(Mutex::new(false));
+        #[cfg(desync_verif)]
+        ready.verif_observe("G", |ready| format!("{}", ready));
         let result  = Arc::new(Mutex::new(None));
         let result2 = result.clone();
 
